@@ -132,7 +132,9 @@ def filter_fragment(ctx):
     idx = [i for i, s in enumerate(body) if touches(s)]
     if not idx:
         raise AnalysisError("no statement of the evaluation routine touches the filter lists")
-    core = body[idx[0]: idx[-1] + 1]
+    # the statements that touch the filter, in order (statements in between that do not
+    # touch it - e.g. the callback block - are not part of the update)
+    core = [body[i] for i in idx]
     # backward slice: earlier top-level statements that define the decision
     # variables read by the core (not the new point's own values)
     point = set()
